@@ -828,7 +828,13 @@ class ValueDecimal(Value):
         return self
 
     def asDate(self):
-        return ValueDate(to_date(self.value))
+        try:
+            return ValueDate(to_date(self.value))
+        except (ValueError, OverflowError):
+            raise CklRuntimeError(
+                ValueString("ERROR"),
+                "Cannot convert " + str(self.value) + " to date",
+            )
 
     def asList(self):
         return ValueList().addItem(self)
@@ -958,7 +964,13 @@ class ValueInt(Value):
         return ValueBoolean.fromval(self.value != 0)
 
     def asDate(self):
-        return ValueDate(to_date(self.value))
+        try:
+            return ValueDate(to_date(self.value))
+        except (ValueError, OverflowError):
+            raise CklRuntimeError(
+                ValueString("ERROR"),
+                "Cannot convert " + str(self.value) + " to date",
+            )
 
     def asList(self):
         return ValueList().addItem(self)
